@@ -72,6 +72,7 @@ def check(ctx):
     check_sentinel(ctx)
     check_taxonomy_last(ctx)
     check_every_chunk_counted(ctx)
+    check_per_file_state(ctx)
     check_same_gene_order(ctx)
     from .C05 import check_tiles
     check_tiles(ctx, ('diff_exp.precompute_from_anndata',
@@ -767,3 +768,65 @@ def check_same_gene_order(ctx):
                f'`{weak or "an order-insensitive form"}`: a file listing '
                'the same genes in another order is accepted and its '
                'columns are added under the wrong genes')
+
+
+def check_per_file_state(ctx):
+    """a worker walks (file, r0, r1) specifications that may span several
+    reference files and caches what it derives from the current file (the
+    row iterator, the list of cell names).  Everything derived from the
+    file inside the loop is refreshed under a condition that looks at the
+    file of the current specification; state that is set once (`if x is
+    None`) goes stale at the first file boundary, and rows are then
+    attributed to the cells of another file."""
+    from ..rules import coverage as CV
+    from ..core.slicing import backward_slice
+    db = ctx.db
+    fi = db.fn('diff_exp.precompute_from_anndata:_process_chunk_spec')
+    target = db.fn('diff_exp.precompute_from_anndata:_process_chunk')
+    ctx.touch(fi)
+    rule = 'R-SAMEVAL/per-file-state'
+    loop = None
+    for n in ast.walk(fi.node):
+        if isinstance(n, ast.Call) and resolve_callee(db, fi, n) is target:
+            loop = CV.innermost_loop(n)
+    if loop is None or not isinstance(loop, ast.For):
+        ctx.fail(rule, '_process_chunk_spec', fi.loc(),
+                 'no loop over chunk specifications found')
+        return
+    lvars = {x.id for x in ast.walk(loop.target) if isinstance(x, ast.Name)}
+    n_state = 0
+    for st in ast.walk(loop):
+        if not (isinstance(st, ast.Assign) and len(st.targets) == 1
+                and isinstance(st.targets[0], ast.Name)):
+            continue
+        # derived from the file of the specification: mentions spec[0]
+        from_file = any(
+            isinstance(x, ast.Subscript) and isinstance(x.value, ast.Name)
+            and x.value.id in lvars and isinstance(x.slice, ast.Constant)
+            and x.slice.value == 0 for x in ast.walk(st.value))
+        if not from_file:
+            continue
+        guards = []
+        p_ = getattr(st, '_parent', None)
+        while p_ is not None and p_ is not loop:
+            if isinstance(p_, ast.If):
+                guards.append(p_)
+            p_ = getattr(p_, '_parent', None)
+        if not guards:
+            continue          # recomputed in every iteration
+        n_state += 1
+        ok = any(any(isinstance(x, ast.Name) and x.id in lvars
+                     for x in ast.walk(g.test)) for g in guards)
+        ctx.ob(rule, f'_process_chunk_spec:state#{n_state - 1}',
+               fi.loc(st), ok,
+               f'`{st.targets[0].id}` is refreshed when the file of the '
+               'specification changes' if ok else
+               f'`{unparse(st)[:60]}` is derived from the file of the '
+               'current specification but is only set under '
+               f'`{unparse(guards[0].test)[:40]}`, which does not look at '
+               'the file: after a file boundary the rows of the new file '
+               'are attributed with the stale value')
+    if n_state == 0:
+        ctx.ok(rule, '_process_chunk_spec', fi.loc(loop),
+               'nothing derived from the file is cached across '
+               'iterations', nontrivial=False)
